@@ -586,6 +586,13 @@ func tthEncCases(c *Ctx) []json.RawMessage {
 		}
 		add(TTHCase{Mode: "enc", Str: sk, Seq: k})
 	}
+	// every int key the package knows (0 .. 40) x the values its constants use ("", "0" .. "5", ...): one entry each
+	for k := 0; k <= 40; k++ {
+		for _, v := range []string{"", "0", "1", "2", "3", "4", "5", "9", "00", "01", "10", "a", "\x00", "true"} {
+			add(TTHCase{Mode: "enc", Seq: k, Int: []IntKV{{K: k, V: litS(v)}}})
+		}
+		add(TTHCase{Mode: "enc", Seq: k, Int: []IntKV{{K: k, V: litS("0")}, {K: (k + 1) % 41, V: litS("1")}}, Str: []StrKV{{K: litS("k"), V: litS("0")}}})
+	}
 	// entries at their minimum encoded size (an empty key is legal; empty values; one-byte keys): whatever a decoder
 	// assumes about the least number of bytes per pair, these maps sit exactly on it; with and without other sections
 	for _, n := range c.PickInts([]int{1, 2, 3, 4, 5, 7, 8, 12, 16, 32, 64}, []int{1, 2, 3, 4, 5, 6, 7, 8, 9, 12, 16, 20, 32, 64, 128, 200, 256}) {
